@@ -69,6 +69,10 @@ TOL = {
     "AbelTransform": 1e-5, "AngularSpectrumPropagator": 2e-5, "FresnelPropagator": 2e-5, "FraunhoferPropagator": 2e-5,
     "XRayTransform3D": 1e-6,
 }
+MODELLED = {
+    "SingleAxisFiniteDifference", "FiniteDifference", "DFT", "CircularConvolve", "Convolve", "ConvolveByX", "Pad", "Crop",
+    "Reshape", "Transpose", "Sum", "Slice", "VerticalStack", "DiagonalStack", "DiagonalReplicated", "XRayTransform2D",
+}
 HIPREC = {"DFT": np.complex128, "XRayTransform2D": np.float64, "XRayTransform3D": np.float64}
 
 
@@ -246,7 +250,7 @@ class Lean:
     def circ(self, c):
         import opgrid
 
-        if c["dtype"] == "complex128" or c["h"]["im"] is not None:
+        if c["dtype"] == "complex128" or ("h" in c and c["h"]["im"] is not None):
             return None
         xs_shape = c["shape"]
         if c["route"] == "from_operator":
@@ -501,10 +505,10 @@ def xray_checks(ctx, lean, oracle, name, c, op, R, case):
                 return False
         # (d) documented angles: 0 sums rows, pi/2 sums columns (unit pixels, detector wide enough)
         if c["dx"] == 1.0 and c["x0"] is None and ny >= max(sh) + 1 and r["all_on"]:
-            want = None
-            if ang == 0.0:
+            want = None  # (pixel edges coincide with bin edges only when ny - n has the parity of 0)
+            if ang == 0.0 and (ny - sh[0]) % 2 == 0:
                 want = x.reshape(sh).sum(axis=1)
-            elif ang == math.pi / 2:
+            elif ang == math.pi / 2 and (ny - sh[1]) % 2 == 0:
                 want = x.reshape(sh).sum(axis=0)
             if want is not None:
                 ctx.count("xray-row-column-sums")
@@ -566,7 +570,11 @@ def dft_checks(ctx, lean, oracle, c, op, case):
         cur[a] = n
     ctx.count("dft-inverse-as-coded")
     if not _close(Rinv, Di, 1e-9):
-        ctx.disagree("linops.DFT.inv_model", case, _summ(Rinv), _summ(Di), oracle=oracle, note="model of DFT.inv (as coded) differs from the real inv")
+        # property oracle for the inverse: inv(eval(x)) = x (only meaningful when the transform size equals the input size;
+        # the zero-padded case is the known finding dft-inv-padded)
+        same = all(m == c["shape"][a] for a, m in zip(axes, ash))
+        ctx.disagree("linops.DFT.inv_model", dict(case, check="inverse") if same else case, _summ(Rinv), _summ(Di),
+                     oracle=_inv_oracle if same else oracle, note="model of DFT.inv (as coded) differs from the real inv")
         return
     # the property: inv undoes eval whenever no axis is truncated
     if all(m >= c["shape"][a] for a, m in zip(axes, ash)):
@@ -646,9 +654,11 @@ def correspond(ctx, model):
         check_config(ctx, lean, oracle, name, c, op)
     ctx.exhaustive = bool(ctx.thorough)
     sizes = {}
-    for name, c, op in opgrid.iter_configs(ctx.rng, ctx.thorough, on_error="yield", per_class=ctx.n(9, 10**9)):
-        sizes[name] = sizes.get(name, 0) + 1
-        check_config(ctx, lean, oracle, name, c, op)
+    for name in opgrid.CLASSES:
+        k = 20 if name in MODELLED else 7  # quick tier: larger sample for the classes inside the Lean model
+        for _, c, op in opgrid.iter_configs(ctx.rng, ctx.thorough, classes=[name], on_error="yield", per_class=k):
+            sizes[name] = sizes.get(name, 0) + 1
+            check_config(ctx, lean, oracle, name, c, op)
     ctx.extra["grid"] = {"classes": len(sizes), "configs_per_class": sizes, "whole_grid": bool(ctx.thorough)}
     malformed(ctx, lean)
 
